@@ -95,6 +95,11 @@ func (c *compiler) write(bb *strings.Builder, i interface{}) {
 	case uint, uint8, uint16, uint32, uint64, int, int8, int16, int32, int64, float32, float64:
 		bb.Write(unsafeGetBytes(fmt.Sprint(t)))
 	case fmt.Stringer:
+		if rv := reflect.ValueOf(t); rv.Kind() == reflect.Ptr && rv.IsNil() {
+			// a nil pointer has nothing to print; its String method
+			// need not be prepared for a nil receiver
+			return
+		}
 		bb.Write(unsafeGetBytes(t.String()))
 	case []string:
 		for _, ii := range t {
